@@ -626,3 +626,60 @@ where
     s.reached("end");
     core::mem::forget(t);
 }
+
+
+// ------------------------------------------------------------------------------------------------
+// C07 on ARBITRARY proof values (not only those a tree hands out): decoding and binding
+// ------------------------------------------------------------------------------------------------
+/// How a backend's proof type is assembled from raw (sibling, direction) pairs.
+pub trait MkProof: ZerokitMerkleProof + Sized {
+    /// `bits[i]`: 0 = the path node is the left child at level i (sibling on the right), 1 = right child
+    fn mk(siblings: &[<Self::Hasher as Hasher>::Fr], bits: &[u8]) -> Self;
+}
+
+/// For a proof of `len` levels with arbitrary siblings and direction bits in {0,1}:
+///  * one entry per level, path vectors return exactly the given siblings / bits;
+///  * leaf_index is the integer whose binary expansion, least-significant first, is the bits
+///    (checked for paths up to 24 levels — well beyond the tree depths explored elsewhere);
+///  * compute_root_from(leaf) is the fold of the hash along the path (independent fold below).
+pub fn body_proof_object<P, S: Src>(s: &mut S, len: usize, vmax: u64)
+where
+    P: MkProof<Index = u8>,
+    P::Hasher: Val,
+{
+    let mut sib = [<P::Hasher as Hasher>::default_leaf(); 24];
+    let mut bits = [0u8; 24];
+    let mut i = 0;
+    while i < len {
+        let v = s.u64();
+        s.assume(v <= vmax);
+        sib[i] = <P::Hasher as Val>::val(v);
+        bits[i] = s.u8();
+        s.assume(bits[i] <= 1);
+        i += 1;
+    }
+    let leaf_v = s.u64();
+    s.assume(leaf_v <= vmax);
+    let leaf = <P::Hasher as Val>::val(leaf_v);
+    let p = P::mk(&sib[..len], &bits[..len]);
+    assert!(p.length() == len, "one entry per level");
+    let gb = p.get_path_index();
+    let ge = p.get_path_elements();
+    assert!(gb.len() == len && ge.len() == len, "path vectors have one entry per level");
+    let mut idx: usize = 0;
+    let mut acc = leaf;
+    let mut i = 0;
+    while i < len {
+        assert!(gb[i] == bits[i], "direction bits are reported as given");
+        assert!(ge[i] == sib[i], "siblings are reported as given");
+        idx |= (bits[i] as usize) << i;
+        acc = if bits[i] == 0 { <P::Hasher as Hasher>::hash(&[acc, sib[i]]) } else { <P::Hasher as Hasher>::hash(&[sib[i], acc]) };
+        i += 1;
+    }
+    assert!(p.leaf_index() == idx, "proof decodes to the position whose binary expansion (least significant first) is its direction bits");
+    assert!(p.compute_root_from(&leaf) == acc, "recomputed root is the fold of the hash along the path");
+    s.reached("end");
+    core::mem::forget(gb);
+    core::mem::forget(ge);
+    core::mem::forget(p);
+}
